@@ -151,6 +151,12 @@ class JointRecurrenceNetwork(JointRecurrencePlot, Network):
             raise ValueError("Delay value (lag) must not exceed length of \
                              time series!")
 
+    def __cache_state__(self):
+        # both bases contribute mutable state (embedding / adjacency); the
+        # adjacency counter exists only once Network.__init__ has run
+        return (JointRecurrencePlot.__cache_state__(self) +
+                (getattr(self, "_mut_A", 0),))
+
     def __str__(self):
         """
         Returns a string representation.
